@@ -512,3 +512,127 @@ V('c17-twin-difference', 'C17', 'R17.1', FLAGSPY,
   '''        self._defined = frozenset(defined) - _recent_set
         self._flags''', '''        self._defined = frozenset(defined).difference(_recent_set)
         self._flags''', expect='silent')
+
+# ---------------------------------------------------------------- C04
+CODEPY = 'pymap/parsing/response/code.py'
+V('c04-max-of-messages', 'C04', 'R4.1', DICTMBX,
+  '''            self._max_uid = new_uid = self._max_uid + 1
+            message = Message(new_uid, when,''',
+  '''            self._max_uid = new_uid = max(self._messages, default=100) + 1
+            message = Message(new_uid, when,''')
+V('c04-increment-outside-lock', 'C04', 'R4.1', DICTMBX,
+  '''        async with self.messages_lock.write_lock():
+            self._max_uid = new_uid = self._max_uid + 1
+            message = Message(new_uid, when,''',
+  '''        self._max_uid = new_uid = self._max_uid + 1
+        async with self.messages_lock.write_lock():
+            message = Message(new_uid, when,''')
+V('c04-copy-wrong-lock', 'C04', 'R4.1', DICTMBX,
+  '''                return None
+        async with destination.messages_lock.write_lock():
+            destination._max_uid = dest_uid = destination._max_uid + 1
+            new_msg = Message.copy(message, uid=dest_uid, recent=recent)
+            destination._messages[dest_uid] = new_msg
+            destination._mod_sequences.update([dest_uid])
+            destination._updated.set()
+        return dest_uid
+
+    async def move''', '''                return None
+        async with self.messages_lock.write_lock():
+            destination._max_uid = dest_uid = destination._max_uid + 1
+            new_msg = Message.copy(message, uid=dest_uid, recent=recent)
+            destination._messages[dest_uid] = new_msg
+            destination._mod_sequences.update([dest_uid])
+            destination._updated.set()
+        return dest_uid
+
+    async def move''')
+V('c04-wrong-key', 'C04', 'R4.1', DICTMBX,
+  '''            self._messages[new_uid] = message
+            self._mod_sequences.update([new_uid])''',
+  '''            self._messages[len(self._messages) + 101] = message
+            self._mod_sequences.update([new_uid])''')
+V('c04-move-keeps-uid', 'C04', 'R4.1', DICTMBX,
+  '''            destination._max_uid = dest_uid = destination._max_uid + 1
+            new_msg = Message.copy(message, uid=dest_uid, recent=recent)
+            destination._messages[dest_uid] = new_msg
+            destination._mod_sequences.update([dest_uid])
+            destination._updated.set()
+        return dest_uid
+
+    async def get''', '''            destination._max_uid = dest_uid = destination._max_uid + 1
+            new_msg = Message.copy(message, recent=recent)
+            destination._messages[dest_uid] = new_msg
+            destination._mod_sequences.update([dest_uid])
+            destination._updated.set()
+        return dest_uid
+
+    async def get''')
+V('c04-maildir-no-increment', 'C04', 'R4.2', MAILDIRMBX,
+  '''            new_rec = Record(uidl.next_uid, fields, filename)
+            uidl.next_uid += 1
+            uidl.set(new_rec)
+        return Message.from_maildir(''',
+  '''            new_rec = Record(uidl.next_uid, fields, filename)
+            uidl.set(new_rec)
+        return Message.from_maildir(''')
+V('c04-maildir-with-read', 'C04', 'R4.2', MAILDIRMBX,
+  '''        async with UidList.with_write(destination._path) as uidl:
+            new_rec = Record(uidl.next_uid, record.fields, dest_filename)''',
+  '''        async with UidList.with_read(destination._path) as uidl:
+            new_rec = Record(uidl.next_uid, record.fields, dest_filename)''')
+V('c04-maildir-no-set', 'C04', 'R4.2', MAILDIRMBX,
+  '''            new_rec = Record(uidl.next_uid, rec.fields, new_filename)
+            uidl.next_uid += 1
+            uidl.set(new_rec)''',
+  '''            new_rec = Record(uidl.next_uid, rec.fields, new_filename)
+            uidl.next_uid += 1''')
+V('c04-uidnext-off-by-one', 'C04', 'R4.3', DICTMBX,
+  'next_uid = self._max_uid + 1', 'next_uid = self._max_uid')
+V('c04-get-mailbox-no-reset', 'C04', 'R4.3', MAILDIRMBX,
+  '''            self._cache[name] = mbx
+        return await mbx.reset()''', '''            self._cache[name] = mbx
+            return await mbx.reset()
+        return mbx''')
+V('c04-copyuid-swapped', 'C04', 'R4.4', SESS,
+  '''                    dest_selected.session_flags.add_recent(dest_uid)
+                uids.append((source_uid, dest_uid))
+        if not uids:
+            copy_uid: CopyUid | None = None
+        else:
+            copy_uid = CopyUid(dest.uid_validity, uids)
+        return (copy_uid, await mbx.update_selected(selected))
+
+    async def move_messages''',
+  '''                    dest_selected.session_flags.add_recent(dest_uid)
+                uids.append((dest_uid, source_uid))
+        if not uids:
+            copy_uid: CopyUid | None = None
+        else:
+            copy_uid = CopyUid(dest.uid_validity, uids)
+        return (copy_uid, await mbx.update_selected(selected))
+
+    async def move_messages''')
+V('c04-copyuid-source-validity', 'C04', 'R4.4', SESS,
+  '''            copy_uid = CopyUid(dest.uid_validity, uids)
+        return (copy_uid, await mbx.update_selected(selected))
+
+    async def update_flags''', '''            copy_uid = CopyUid(mbx.uid_validity, uids)
+        return (copy_uid, await mbx.update_selected(selected))
+
+    async def update_flags''')
+V('c04-copyuid-order', 'C04', 'R4.4', CODEPY,
+  '''            % (validity, bytes(source_uid_set), bytes(dest_uid_set))''',
+  '''            % (validity, bytes(dest_uid_set), bytes(source_uid_set))''')
+V('c04-appenduid-wrong-uids', 'C04', 'R4.4', SESS,
+  '''            uids.append(msg.uid)
+        return (AppendUid(mbx.uid_validity, uids),''',
+  '''            uids.append(len(uids) + 1)
+        return (AppendUid(mbx.uid_validity, uids),''')
+# twins
+V('c04-twin-augassign', 'C04', 'R4.1', DICTMBX,
+  '''            self._max_uid = new_uid = self._max_uid + 1
+            message = Message(new_uid, when,''',
+  '''            self._max_uid += 1
+            new_uid = self._max_uid
+            message = Message(new_uid, when,''', expect='silent')
